@@ -69,6 +69,12 @@ fn shapes(lg_k: u8) -> Vec<(&'static str, Vec<u32>)> {
     let mut exc: Vec<u32> = (0..k).step_by(2).map(|s| coupon(s, 2)).collect();
     exc.extend([coupon(0, 63), coupon(1, 31), coupon(2, 32), coupon(k - 1, 17), coupon(k / 2, 15)]);
     v.push(("array(exceptions)", exc));
+    // high base: every register at 3..=5, so that a conversion to Hll4 (filled slot by slot from
+    // cur_min 0) jumps cur_min by three levels at the last slot; 15 and 16 are exceptions before
+    // the jump and fit four bits after it, 18 and 40 stay exceptions
+    let mut jump: Vec<u32> = (0..k).map(|s| coupon(s, 3 + (s % 3) as u8)).collect();
+    jump.extend([coupon(1, 15), coupon(2, 16), coupon(5, 18), coupon(k - 2, 40)]);
+    v.push(("array(high base)", jump));
     // sparse array: only 9 registers set (forces array mode at lg_k < 8; at lg_k >= 8 it stays a set)
     v
 }
